@@ -119,6 +119,24 @@ CLAIMED = {
          "Proof: Props/C17.lean for all real amounts and flag values; the aggregation to part-households is modelled by its C11/C12 "
          "specification (any over members sharing the wthh flag); group-constancy of the inputs is C15's subject (three recorded "
          "findings there concern wealth allowance / Wohngeld rent inputs, not the priority logic)."),
+ "C08": ("5/C08", "Lean 4 theorems: a topological certificate implies acyclicity and bounded evaluation depth (cert_sound, "
+         "eval_terminates_with_fuel_n, rootsAllowed_spec); the real default-target graphs from 2015-01-01 on (one per distinct function "
+         "table, regenerated every run) are certified by the kernel (acyclic, every leaf a documented input / parameter-only rule); "
+         "per class of calendar days every static parameter path of every reachable rule, every rounding spec and the absence of "
+         "stubs are checked in the Lean environment model; corner-population search on the real system",
+         "Proof: Props/C08.lean + Props/C08Inst.lean (decide +kernel on 13 regenerated graphs); the classes of days come from the C07 "
+         "cut theorem; parameter paths are looked up in the Lean loader model (interpreter), which is compared with the real loader; "
+         "dynamic subscripts (household size, birth-year tables) are covered only by their static prefix and by the search: partial there."),
+ "C19": ("5/C19", "verified symbolic evaluator (Core/Sym.lean, soundness in Props/SymSound.lean): for a chain of rules as a function of one "
+         "real input it certifies piecewise-affine forms on intervals and decides non-negativity, monotonicity, zero below a limit, "
+         "constancy above a ceiling, continuity at a point and sum identities for ALL wages >= 0; the chains are built from the real "
+         "graph and the rule sources at every date where contribution rules or parameters change x east/west x children x 4 branches; "
+         "8 instances are decided by the kernel (Props/C19Inst.lean), the others by the Lean interpreter; chain vs real system at sample "
+         "wages; dense wage sweep on the real system",
+         "Proof: symExpr_sound / symChain_sound / nonneg_sound / nondecreasing_sound / zeroBelow_sound / constantAbove_sound / "
+         "continuousAt_sound / sumEq_sound; contribution_shape lifts the kernel-decided certificates to all wages. The person is an "
+         "employee without statutory pension (ges_rente_m supplied as 0), rounded parameter-only nodes (minijob_grenze, midijob_faktor_f) "
+         "enter as the constants the real system computes; floats are exact rationals in the model."),
 }
 
 NOT_YET = "check not built yet in this round (design in DESIGN.md §5); the property itself is in scope of the technique"
